@@ -18,6 +18,7 @@ from simprocesd.model import System, EventType
 from simprocesd.model.factory_floor import (Part, Batch, PartGenerator, Source, Sink, PartHandler, PartProcessor,
                                              Buffer, PartBatcher, DecisionGate, Group, Maintainer,
                                              PartFlowController)
+from simprocesd.model.sensors import AttributeProbe, PeriodicSensor
 
 INF = float('inf')
 
@@ -167,7 +168,10 @@ class Model:
         for r, c in spec.get('res', {}).items():
             self.sys.resource_manager.add_resources(r, c)
         mc = spec.get('maint', 2)
-        self.maint = Maintainer('maint', capacity=num(mc) if mc is not None else 2)
+        self.v0 = {}            # id(asset) -> the starting value the harness passed to the constructor
+        self.extras = []
+        self.maint = Maintainer('maint', capacity=num(mc) if mc is not None else 2, value=spec.get('maint_v0', 0))
+        self.v0[id(self.maint)] = spec.get('maint_v0', 0)
         for g in spec.get('groups', []):
             for d in g['devs']:
                 self.mk(d, in_group=g['n'])
@@ -179,6 +183,16 @@ class Model:
             self.D[g['n']] = Group(g['n'], [self.D[d['n']] for d in g['devs']], **kw)
         for d in spec['devs']:
             self.mk(d)
+        for x in spec.get('extras', []):
+            # further value-carrying assets that take no part in the flow: a second crew (possibly with the SAME name as
+            # the first one: names need not be unique) and periodic sensors bought at a price
+            if x['k'] == 'M':
+                o = Maintainer(x['n'], capacity=x.get('cap', 1), value=x['v'])
+            else:
+                tgt = self.D[x['target']]
+                o = PeriodicSensor(x['iv'], [AttributeProbe('value', tgt)], name=x['n'], value=x['v'])
+            self.v0[id(o)] = x['v']
+            self.extras.append(o)
         for (frm, to) in spec.get('loops', []):
             # documented rework loop: a gate leads back into an earlier buffer
             self.D[to].set_upstream(self.D[to].upstream + [self.D[frm]])
@@ -216,7 +230,7 @@ class Model:
                 o.qadd = d['qadd']
                 o.add_finish_processing_callback(add_quality_cb)
         elif k == 'H':
-            o = PartHandler(d['n'], up, d['c'])
+            o = PartHandler(d['n'], up, d['c'], d.get('v0', 0))
             if d.get('rvaladd'):
                 o.rvaladd = d['rvaladd']
                 o.add_receive_part_callback(recv_value_cb)
@@ -226,7 +240,7 @@ class Model:
                 o.add_receive_part_callback(toggle_cycle)
         elif k == 'B':
             cap = num(d.get('cap', 'inf'))
-            o = Buffer(d['n'], up, d['c'], None if cap == INF else cap)
+            o = Buffer(d['n'], up, d['c'], None if cap == INF else cap, d.get('v0', 0))
         elif k == 'BA':
             o = PartBatcher(d['n'], up, output_batch_size=d['size'])
         elif k == 'G':
@@ -242,6 +256,8 @@ class Model:
         else:
             raise ValueError(k)
         self.D[d['n']] = o
+        if k in ('P', 'H', 'B'):
+            self.v0[id(o)] = d.get('v0', 0)
         if isinstance(o, PartHandler):
             # first callback of every holding device: observers that must see the part as received
             o._received_part_callbacks.insert(0, self._first)
